@@ -16,7 +16,7 @@ RULE = ("seeded and planted VRPTW instances x formulation (arc grids incl. windo
         "sequence-based must not raise under their preconditions; non-trivial = heuristic returned normally on an instance with >= 2 variables; "
         "distinct = distinct case")
 ASSUMPTIONS = [
-    "path-based 'always succeeds' precondition: 0 <= initial load <= capacity, |customer demand| <= capacity, customer window ends >= 0, depot demand 0 and window [<=0, inf)",
+    "path-based 'always succeeds' precondition (PathPre): 0 <= initial load <= capacity, |customer demand| <= capacity, depot demand 0 and window end inf, customer window ends >= depot window start",
     "sequence-based 'always succeeds' precondition: L >= 3, depot set with window end inf, every customer window end >= depot window start",
     "the path-based route sampler's choices only influence which valid routes enter the pool, never admissibility (modelled by an arbitrary choice oracle)",
     "real-valued MIRP instances: only the oracle on the real code (exact evaluation of the object's own float data converted with Fraction)",
@@ -65,6 +65,16 @@ def gen(rng, tier):
         case["twice"] = rng.random() < 0.3
         if rng.random() < 0.35:
             case["pre"] = rng.sample(["n", "obj", "con", "qubo_o", "qubo_f"], rng.randint(1, 3))
+        if case["form"] in ("path", "seq") and k % 7 == 3:
+            # the whole time axis shifted (also below zero): nothing in the property depends on where time zero is
+            sh = Fraction(rng.choice([-12, -7, -3, 5]))
+            for nd in case["spec"]["nodes"]:
+                nd["lo"] = fs(Fraction(nd["lo"]) + sh)
+                if nd["hi"] != "inf":
+                    nd["hi"] = fs(Fraction(nd["hi"]) + sh)
+            if case["form"] == "path":
+                case["routes"] = []
+            case["shifted"] = fs(sh)
         if case["form"] == "path":
             # make the documented preconditions of 'always succeeds' hold: demands within capacity
             cap = Fraction(case["spec"]["cap"])
@@ -289,8 +299,9 @@ def preconditions(case, o, form):
     dep = g["nodes"][0]
     if form == "path":
         cap, init = g["cap"], g["init"]
-        return (cap is not None and init is not None and 0 <= init <= cap and dep[1] == 0 and dep[2] <= 0 and dep[3] == core.INF
-                and all(abs(n[1]) <= cap and (n[3] == core.INF or n[3] >= 0) for n in g["nodes"][1:]))
+        # (since fix D29 the dummy node opens when the depot opens: no condition on where time zero lies)
+        return (cap is not None and init is not None and 0 <= init <= cap and dep[1] == 0 and dep[3] == core.INF
+                and all(abs(n[1]) <= cap and (n[3] == core.INF or n[3] >= dep[2]) for n in g["nodes"][1:]))
     if form == "seq":
         return (int(o.max_sequence_length) >= 3 and dep[3] == core.INF
                 and all(n[3] == core.INF or n[3] >= dep[2] for n in g["nodes"][1:]))
